@@ -427,6 +427,22 @@ pub fn run(cfg: &Cfg, rep: &mut Report) {
         rep.count("s-doc-front-matter");
         run_doc(rep, &mut rng, &o, &doc);
     }
+    // every block opener as the first line of the document (the BOM, the first line ending and the first
+    // line's length bookkeeping meet there), under all extensions, each under every rewrite
+    const FIRST_LINES: &[&str] = &[
+        "> [!WARNING] Read this first\n> body\n", "> [!NOTE]\n> body\n", "# Title\n\ntext\n", "Title\n=====\n", "```rust\nlet x = 1;\n```\n", "~~~\ncode\n", "    indented\n",
+        "| a | b |\n|---|---|\n| 1 | 2 |\n", "[^n]: note\n\ntext[^n]\n", "[r]: /u \"t\"\n\n[r]\n", "- [x] done\n- [ ] todo\n", "1. one\n2. two\n", "* * *\n", "<div>\nx\n</div>\n",
+        "<!-- c -->\n", ">>>\nquote\n>>>\n", "> quote\nlazy\n", ">greentext\n", "Term\n\n: details\n", "$$\nx\n$$\n", "\\# not a heading\n", "&amp; entity first\n", "www.example.com first\n",
+        "a@b.co first\n", "[[wiki]] first\n", "![img](/i.png \"t\")\n", "\ttab first\n", "  \n\nafter blank first line\n", "-\tx\n", "######\n",
+    ];
+    for fl in FIRST_LINES {
+        for o in [Opts::all_extensions(), Opts::gfm(), Opts::default()] {
+            let mut o = o;
+            o.set("sourcepos", false);
+            rep.count("s-doc-first-line-opener");
+            run_doc(rep, &mut rng, &o, fl);
+        }
+    }
     // 4. S: the raw-size dependent reference budget (constructed family)
     for kind in ["crlf", "cr", "final-newline", "nul", "bom"] {
         run_budget(rep, kind, 10, 20_010);
